@@ -123,6 +123,9 @@ export async function watchLoopLeg(outDir, N, root) {
     if (waited >= 20000 || turns >= 5000) res.settle_gave_up = (res.settle_gave_up || 0) + 1;
   };
   const realConsole = { error: console.error, log: console.log, warn: console.warn, info: console.info };
+  // (the same for a promise of the loop that is rejected and nobody listens: Node ends the process)
+  const onUnhandled = (e) => viol("watch-loop-dies-of-an-error-it-does-not-catch", { unhandled_rejection: String(e && e.message).slice(0, 200) });
+  process.on("unhandledRejection", onUnhandled);
   try {
     for (let i = 0; i < N; i++) {
       const rng = new Rng(root, "watchloop", i);
@@ -155,6 +158,7 @@ export async function watchLoopLeg(outDir, N, root) {
       let buildNo = 0;
       let lastCode = null;
       let lastOk = false;
+      let outIsDir = false;
       globalThis.__beff_cli_opts = { watch: true, project: abs("bff.json"), verbose: false };
       globalThis.__wasm_behaviour = {
         reads: () => readSet.map(abs),
@@ -191,11 +195,38 @@ export async function watchLoopLeg(outDir, N, root) {
         const saved = rng.chance(1, 4) ? rng.shuffle([...files]).slice(0, 2) : [rng.pick(files)];
         // somebody else touches the output directory between two builds (git checkout / stash / clean, a
         // build script): the generated file is gone, or holds something else
-        if (rng.chance(1, 6)) {
-          const outFile = abs("gen/parser.js");
+        const outFile = abs("gen/parser.js");
+        if (outIsDir) {
+          // ... and puts things right again before the next save
+          fs.rmSync(outFile, { recursive: true, force: true });
+          outIsDir = false;
+        } else if (rng.chance(1, 6)) {
           res.output_interfered = (res.output_interfered || 0) + 1;
-          if (rng.chance(1, 2)) fs.rmSync(outFile, { force: true });
-          else if (fs.existsSync(path.dirname(outFile))) fs.writeFileSync(outFile, "/* restored from version control */\n");
+          const how = rng.below(5);
+          if (how < 2) fs.rmSync(outFile, { force: true });
+          else if (how < 4) {
+            if (fs.existsSync(path.dirname(outFile))) fs.writeFileSync(outFile, "/* restored from version control */\n");
+          } else if (fs.existsSync(path.dirname(outFile))) {
+            // the path of the generated file is taken by a directory for a while: builds cannot write (whatever
+            // they do about it), and once it is gone the loop must be back to normal
+            fs.rmSync(outFile, { force: true });
+            fs.mkdirSync(outFile);
+            outIsDir = true;
+          }
+        }
+        // a save that is not atomic: the change event arrives while the file is gone, then the file is back with
+        // new text and a second event follows (nothing is asked of the first event; everything of the second)
+        if (rng.chance(1, 8)) {
+          for (const f of saved) {
+            const ws0 = globalThis.__watchers.filter((w) => w.path === abs(f) && w.ev === "change");
+            if (!ws0.length) continue;
+            fs.rmSync(abs(f), { force: true });
+            try {
+              quiet(() => ws0[0].cb(abs(f)));
+            } catch {}
+            await settle();
+            res.events_for_a_missing_file = (res.events_for_a_missing_file || 0) + 1;
+          }
         }
         for (const f of saved) {
           put(f);
@@ -207,7 +238,12 @@ export async function watchLoopLeg(outDir, N, root) {
         for (const f of saved) {
           const ws = globalThis.__watchers.filter((w) => w.path === abs(f) && w.ev === "change");
           if (!ws.length) continue; // not watched (never read): nothing reaches the session, by design
-          quiet(() => ws[0].cb(abs(f)));
+          try {
+            quiet(() => ws[0].cb(abs(f)));
+          } catch (e) {
+            // an exception that leaves the listener is an uncaught exception of the watch process: it ends
+            viol("watch-loop-dies-of-an-error-it-does-not-catch", { history: i, file: f, error: String(e && e.message).slice(0, 200) });
+          }
           fired.push(f);
           res.change_events++;
         }
@@ -238,7 +274,7 @@ export async function watchLoopLeg(outDir, N, root) {
         }
         if (!calls.some((c) => c.name === "bundle_to_string_v2")) viol("watch-loop-change-is-not-followed-by-a-build", { history: i, files: fired, calls: calls.map((c) => c.name) });
         for (const x of readSet) everRead.add(x);
-        if (lastOk && calls.some((c) => c.name === "bundle_to_string_v2")) {
+        if (lastOk && !outIsDir && calls.some((c) => c.name === "bundle_to_string_v2")) {
           // the build succeeded: the output on disk is this build's code (also when it is the code of the build
           // before and the file was removed or replaced by somebody else in the meantime)
           const outFile = abs("gen/parser.js");
@@ -257,6 +293,7 @@ export async function watchLoopLeg(outDir, N, root) {
     res.ran = false;
     res.reason = "watch loop could not be driven: " + String(e && e.stack).slice(0, 400);
   } finally {
+    process.off("unhandledRejection", onUnhandled);
     Object.assign(console, realConsole);
     for (const k of Object.keys(realFsP)) fs.promises[k] = realFsP[k];
     for (const k of Object.keys(realFsCb)) fs[k] = realFsCb[k];
